@@ -147,6 +147,8 @@ func c09(c *Ctx) {
 	r.Rule("C09.protocol", "on every path to a transport write: acquire(mu) < Lock(writeErrMu) < load writeErr < Unlock < branch on that load being nil < write; mu is released exactly once on every path that acquired it")
 	r.Rule("C09.close-recorded", "on every path where a transport write succeeded and the frame may be a close frame, the sticky error is set (writeFatal of a non-nil value) before mu is released")
 	r.Rule("C09.opcode-agrees", "the value compared with CloseMessage after the write is the opcode that was put into byte 0 of the written frame (callers of write pass the frame type they rendered with)")
+	r.Rule("C09.frame-private", "the control frame a WriteControl call writes is the one it built: the frame is assembled in memory private to the call, so a queued ping cannot end up writing a close frame's bytes without the close being recorded (same rule as C08.reply-private)")
+	newTransport(c).noSharedBeforeLock("C09.frame-private")
 	r.Rule("C09.prepared-type", "the frame type WritePreparedMessage hands to write (which decides whether the close is recorded) is the type the cached frame was rendered with: every variant is rendered by WriteMessage(pm.messageType, pm.data) and frame() returns pm.messageType (same rules as C19.key-complete, C19.cache)")
 	c.borrow(c19, map[string]string{"C19.key-complete": "C09.prepared-type", "C19.cache": "C09.prepared-type"})
 	r.Rule("C09.sticky-write", "every store to Conn.writeErr is guarded by a test that the current value is nil and stores a value that is not the nil constant; writeErr is stored nowhere else")
